@@ -584,6 +584,7 @@ def correspond(ctx):
     if len(model) != len(cases):
         raise Broken("correspondence-harness:C20", f"{len(model)} model values for {len(cases)} cases")
 
+    shrunk_kinds = set()
     for (inp, r), mv in zip(cases, model):
         ops = r["seen"]
         key = json.dumps(inp, sort_keys=True)
@@ -603,7 +604,15 @@ def correspond(ctx):
             corr.oracle_fail(inp, r["saved"], r["rows"], "save() writes the printed rows")
         bad = oracle(inp, r["rows"], ops)
         if bad is not None:
-            corr.oracle_fail(inp, _short(bad[1]), _short(bad[2]), bad[0])
+            f = _failure(inp, bad)
+            kind = (f["what"], in_known_class(inp, ops))
+            if kind not in shrunk_kinds and len(shrunk_kinds) < 6:
+                # report the first failure of every kind in minimised form
+                shrunk_kinds.add(kind)
+                small = fails(shrink(inp))
+                if small is not None and (small["what"], in_known_class(small["input"])) == kind:
+                    f = small
+            corr.oracle_fail(f["input"], f["observed"], f["expected"], f["what"])
         if dm is None:
             corr.disagree(inp, r["rows"], None, "implementation draws, model rejects")
             continue
@@ -638,6 +647,17 @@ def _short(x):
     return s
 
 
+def _failure(inp, bad):
+    """(what, observed, expected) of the oracle -> failure dict; the wire number goes into `observed` so that
+    one defect gives one kind of `what`."""
+    what, obs, exp = bad
+    m = re.match(r"(.*?) (?:on )?wire (\d+)(.*)", what)
+    if m:
+        what = m.group(1) + m.group(3)
+        obs = {"wire": int(m.group(2)), "observed": _short(obs)}
+    return dict(input=inp, observed=_short(obs), expected=_short(exp), what=what)
+
+
 # ----------------------------------------------------------------------------------------------
 # classification, search, replay
 # ----------------------------------------------------------------------------------------------
@@ -660,7 +680,7 @@ def fails(inp):
     bad = oracle(inp, r["rows"], r["seen"])
     if bad is None:
         return None
-    return dict(input=inp, observed=_short(bad[1]), expected=_short(bad[2]), what=bad[0])
+    return _failure(inp, bad)
 
 
 def shrink(inp):
@@ -697,7 +717,7 @@ def search(ctx, broken):
     for inp in cands:
         f = fails(inp)
         if f:
-            k = (f["what"].split(" on wire")[0], classify(f))
+            k = (f["what"], classify(f))
             if k in seen_what:
                 continue
             seen_what.add(k)
